@@ -205,6 +205,8 @@ def gen_project(rng, k=None):
         if pick(rng, k.p_leave):
             a = day()
             c = rng.random()
+            if not k.aligned_only and c < 0.35:
+                c = 0.9                     # unaligned calendars: more bookings (the only absences with a time of day)
             if c < 0.4:
                 r["leaves"] = [[rng.choice(["annual", "sick", "special"]), a, None]]
             elif c < 0.6:
@@ -219,6 +221,8 @@ def gen_project(rng, k=None):
                     r["vacations"] = [[a, None if pick(rng, 0.5) else a + 2 * D]]
             else:
                 hh = rng.choice([9, 10, 13]) * H
+                if not k.aligned_only and pick(rng, 0.6):
+                    hh += max(60, (G // 2) // 60 * 60 - rng.choice([0, 60]))   # an absence that begins inside a slot, at any resolution
                 r["bookings"] = [[a + hh, rng.choice(["2h", "3h", "90min"] if not k.aligned_only else ["2h", "3h", "4h"])]]
         if pick(rng, k.p_limits):
             r["limits"] = gen_limits(rng, G)
